@@ -10,12 +10,16 @@ CLAIMED = {
              note="Trusted: the truth-table model (tt.rs, unit-tested), the two diagram walkers, the allocator seam. Bounds: <= 7 variables, <= 310 operations per run. compose judged against its documented definition."),
  "C02": dict(section="5 C02", text="Same simulated histories with a run-global function->pointer map, per-node shape checks, sub-diagram canonicity and end-of-run re-lookup of every live node; plus the real robin-hood table driven directly with simulator-chosen hash values (collision clusters, wrap-around, all-equal, pointer-like), growth at arbitrary instants, capacities 1..64 and the shipped 131072 with > 91750 keys. Sampling evidence.",
              note="Trusted: truth-table model, set model of the table, allocator seam. Probe chains < 255 assumed (u8 probe length in the table)."),
- "C16": dict(section="5 C16", text="The lossy cache driven directly with adversarial colliding hashes / all capacities / forced growth against a last-value map (only wrong values are violations), and twin execution: the same history on a lossy, fault-injected builder and on a fault-free cache-everything twin must give identical canonical diagrams. Sampling evidence.",
+ "C16": dict(section="5 C16", text="The lossy cache driven directly with adversarial colliding hashes / all capacities / forced growth against a last-value map (only wrong values are violations), and twin execution: the same history on a lossy, fault-injected BDD builder and on a fault-free cache-everything twin must give identical canonical diagrams; likewise an SDD builder whose apply and ite caches forget at random against a fault-free twin. Sampling evidence.",
              note="Trusted: map model, structural signature function, allocator seam. A cache may always answer None."),
  "C09": dict(section="5 C09", text="Seeded simulation of decide/pop histories (1-3 logical callers, any variable and polarity, refused decisions followed by more work on the same solver) on the real SATSolver over random small CNFs, checked after every step against brute-force entailment over all <= 64 models, a clause-by-clause fixpoint check, a shadow stack for pop, and hash-vs-residual-formula injectivity. Sampling evidence; the space explored is the call schedule (this component has no cache or allocator dependence, so no fault kinds apply).",
              note="Trusted: brute-force model enumeration, shadow stack. Bounds: <= 6 variables, <= 8 clauses, <= 120 calls. Hash clause asserted only while the prime product fits in 128 bits."),
  "C15": dict(section="5 C15", text="Seeded simulation of CnfHasher push/decide/pop/hash histories (caller's partial model kept in step, also hashed with extra assignments) against a residual-formula reference (equal residual => equal hash; equal hash => equal residual while the prime product fits 128 bits), and of PartialModel / VarSet mutation histories against explicit sets; Cnf::new/eval/is_sat_partial/condition chains/brute-force wmc ride along as generated inputs checked against explicit assignment sets (for those clauses the simulator adds nothing beyond seeded generation). Sampling evidence.",
              note="Trusted: explicit-set reference implementations in the harness. Bounds: <= 6 variables, <= 8 clauses, <= 124 calls; exact dyadic / modular weights."),
+ "C03": dict(section="5 C03", text="Seeded simulation of SDD-builder histories (1-4 logical callers on one CompressionSddBuilder; right-linear, left-linear, balanced and random vtrees with random leaf labelling; compression on and off; tiny-to-shipped unique tables; apply-/ite-cache forgetting and early growth; controlled placement) against the truth-table model, read back by an independent evaluator over elements / binary nodes / complement variants and by a second reader through node_iter(); old handles are re-read later. Sampling evidence.",
+             note="Trusted: truth-table model, the two SDD readers, allocator seam. Bounds: <= 7 variables, <= 160 operations; operands whose unfolded size exceeds a cap are not reused (rsdd's structural pointer ordering is exponential on deep shared diagrams; cost control only)."),
+ "C04": dict(section="5 C04", text="The same simulated histories with compression on: every reachable decision node is audited from the truth tables of its elements against the vtree (primes non-false, disjoint, exhaustive, left variables only; subs right variables only and pairwise different; not trimmable), a run-global function->pointer map over all handles and all sub-diagrams decides canonicity, and every live node is looked up again at the end. Sampling evidence.",
+             note="Trusted: truth-table model, vtree leaf sets read through the public VTree API. The library's is_compressed/is_trimmed are evaluated as a cross-check only (disagreements are counted, not reported)."),
 }
 
 NA = {
